@@ -20,7 +20,8 @@ RULE = ("The real TaskManager (only bacpypes.task._time rebound to a virtual clo
         "fire once. Non-trivial: history with a time collision, a suspend/re-install of a pending task, or a raising member. "
         "Distinct by the operation sequence."
         " Also: histories over 6..16 tasks with the heap filled first; tasks that re-install themselves from inside their firing and are suspended / moved / resumed from outside; one recurring task installed three times over an interval x offset grid (None = keep, 0 = zero)."
-        " Deferred callables of every kind (partial, callable object, bound method, lambda).")
+        " Deferred callables of every kind (partial, callable object, bound method, lambda)."
+        " One reduced copy of a generated shard runs with the library's debug tracing switched on (label tracing-on).")
 ASSUMPTIONS = [
     "bacpypes.task._time is the only wall-clock read on this path (rebinding it is a harness monkeypatch, not a source hook)",
     "recurring-slot alignment is judged with a 1e-4 s tolerance (the library adds 1 us jitter by design); install instants are "
